@@ -10,7 +10,8 @@
      * `NoEarlyMatch` — no relaying hop's `um` HMAC verifies by accident on the packet it relayed;
      * collisions: accepting a modified packet is shown to EXHIBIT a MAC collision.
    Not covered here: ECDH / ephemeral-key blinding (shared secrets are inputs), payload contents
-   (opaque, length-framed), attribution data / hold times. -/
+   (opaque, length-framed), attribution data / hold times (executable model in Model/Onion.lean,
+   validated by the correspondence only). -/
 import LdkModel.Proofs.Onion
 namespace Ldk.C14
 open Ldk Ldk.Onion
@@ -93,6 +94,23 @@ theorem peel_build (C : OnionCrypto) (plen : Bytes → Option Nat) (ad noise : B
         have : hops.drop pre.length = t := by rw [← heq]; exact List.drop_left' rfl
         simpa [packetAt, this, filler] using hi)
     simpa [packetAt, filler] using this
+
+/-- the same per-hop fact WITHOUT the cryptographic hypothesis `hnz`, as an exact case analysis:
+    hop `i` always obtains exactly its payload; it forwards exactly the next packet `build` computed
+    unless it is the last hop — or the next packet's HMAC happens to be the all-zero string, the one
+    (2⁻²⁵⁶) event in which BOLT 4's "all-zero HMAC = final" convention misfires. -/
+theorem peel_build_unconditional (C : OnionCrypto) (plen : Bytes → Option Nat) (ad noise : Bytes)
+    (hops : List Hop) (i : Nat) (hi : i < hops.length) (hfit : totalSize hops ≤ noise.length)
+    (hframe : WellFramed plen hops[i].payload) :
+    peel C plen hops[i].keys ad (packetAt C ad noise hops i).1 (packetAt C ad noise hops i).2 =
+      if i + 1 = hops.length ∨ (packetAt C ad noise hops (i + 1)).2 = zeros 32
+      then .ok (.final hops[i].payload)
+      else .ok (.forward hops[i].payload (packetAt C ad noise hops (i + 1)).2
+                  (packetAt C ad noise hops (i + 1)).1) := by
+  rw [peel_packetAt C plen ad noise hops i hi hfit hframe]
+  by_cases h1 : i + 1 = hops.length
+  · simp [h1]
+  · by_cases h2 : (packetAt C ad noise hops (i + 1)).2 = zeros 32 <;> simp [h1, h2]
 
 /-- the one-hop instance, free of the non-zero-HMAC hypothesis: a single hop always recognises
     itself as final and reads exactly its payload -/
